@@ -40,6 +40,7 @@ import (
 	"github.com/tychoish/fun"
 	"github.com/tychoish/fun/adt"
 	"github.com/tychoish/fun/dt"
+	"github.com/tychoish/fun/ers"
 	"github.com/tychoish/fun/itertool"
 )
 
@@ -138,13 +139,14 @@ func funFrames(g ginfo) []string {
 				name = name[:i]
 			}
 			name = genericArgs.ReplaceAllString(strings.TrimPrefix(name, "github.com/tychoish/"), "")
+			name = strings.NewReplacer("(*", "", "(", "", ")", "").Replace(name) // atoms of the S-expression protocol
 			out = append(out, name)
 		} else if strings.HasPrefix(ln, "created by "+funPath) {
 			name := strings.TrimPrefix(ln, "created by github.com/tychoish/")
 			if i := strings.Index(name, " in goroutine"); i > 0 {
 				name = name[:i]
 			}
-			out = append(out, "created-by:"+genericArgs.ReplaceAllString(name, ""))
+			out = append(out, "created-by:"+strings.NewReplacer("(*", "", "(", "", ")", "").Replace(genericArgs.ReplaceAllString(name, "")))
 		}
 	}
 	return out
@@ -257,6 +259,7 @@ type c01cfg struct {
 	procs     int
 	raw       int
 	hasRaw    bool
+	badopts   bool
 }
 
 type c01obs struct {
@@ -265,6 +268,7 @@ type c01obs struct {
 	calls    []int
 	end      []string
 	after    string
+	closeerr string
 	idem     string
 	ret      string
 	released string
@@ -289,7 +293,7 @@ func (o *c01obs) String() string {
 	for _, e := range o.end {
 		b.WriteString(" " + e)
 	}
-	fmt.Fprintf(&b, ") (after %s) (idem %s) (ret %s) (released %s) (leak", o.after, o.idem, o.ret, o.released)
+	fmt.Fprintf(&b, ") (after %s) (idem %s) (ret %s) (released %s) (closeerr %s) (leak", o.after, o.idem, o.ret, o.released, o.closeerr)
 	for _, l := range o.leak {
 		b.WriteString(" " + l)
 	}
@@ -305,6 +309,8 @@ func errKind(err error) string {
 		return "eof"
 	case errors.Is(err, context.Canceled):
 		return "ctx"
+	case errors.Is(err, ers.ErrInvalidInput):
+		return "invalid"
 	}
 	return "other"
 }
@@ -391,7 +397,10 @@ func consume(cfg *c01cfg, o *c01obs, idx int, it *fun.Iterator[int], ctx context
 	record()
 	switch cfg.behaviour {
 	case "exhaust":
-		_ = it.Close()
+		cerr := it.Close()
+		o.mu.Lock()
+		o.closeerr = errKind(cerr)
+		o.mu.Unlock()
 	case "close":
 		_ = it.Close()
 		_ = it.Close()
@@ -448,6 +457,8 @@ func c01case(s *Sexp) string {
 			}
 		case "seed":
 			cfg.seed = uint64(a.List[1].Int64())
+		case "badopts":
+			cfg.badopts = a.List[1].Int() != 0
 		case "procs":
 			cfg.procs = a.List[1].Int()
 		}
@@ -461,7 +472,7 @@ func c01case(s *Sexp) string {
 	fun.VerifSetHook(c01hook)
 	defer fun.VerifSetHook(nil)
 
-	o := &c01obs{after: "none", idem: "none", ret: "none", released: "none"}
+	o := &c01obs{after: "none", idem: "none", ret: "none", released: "none", closeerr: "none"}
 	baseline := goroutineIDs()
 	// the root context is cancelled only after the leak check: cancelling it earlier would release
 	// every goroutine and hide a leak
@@ -511,7 +522,72 @@ func single(cfg *c01cfg, o *c01obs, it *fun.Iterator[int], ctx context.Context, 
 		blocked(cfg, o, it, ctx, cancel, &total)
 		return
 	}
+	if cfg.behaviour == "closeduringfirst" {
+		closeDuringFirst(o, 0, it, ctx)
+		return
+	}
 	consume(cfg, o, 0, it, ctx, cancel, &total)
+}
+
+// stallCtx is a context whose Done method - which context.WithCancel calls while the iterator derives
+// its own cancellable context inside the very first advance (Producer.WithCancel) - runs a hook once.
+type stallCtx struct {
+	context.Context
+	once sync.Once
+	hook func()
+}
+
+func (c *stallCtx) Done() <-chan struct{} {
+	c.once.Do(c.hook)
+	return c.Context.Done()
+}
+
+// closeDuringFirst: Close is called from another goroutine exactly while the first ReadOne is inside
+// context.WithCancel. Whatever the first advance returns, afterwards Close must have returned, the
+// advance must have returned, a further ReadOne must report the end and no goroutine may be left.
+func closeDuringFirst(o *c01obs, idx int, it *fun.Iterator[int], ctx context.Context) {
+	closed := make(chan struct{})
+	sctx := &stallCtx{Context: ctx}
+	sctx.hook = func() {
+		go func() { defer close(closed); _ = it.Close() }()
+		select {
+		case <-closed:
+		case <-time.After(20 * time.Millisecond):
+		}
+	}
+	advanced := make(chan struct{})
+	var first []int
+	end := "stop"
+	go func() {
+		defer close(advanced)
+		v, err := it.ReadOne(sctx)
+		if err == nil {
+			first = append(first, v)
+		} else {
+			end = errKind(err)
+		}
+	}()
+	hang := c01deadline("VERIF_HANG_DEADLINE_MS", 30*time.Second)
+	select {
+	case <-advanced:
+		o.released = "1"
+		o.seen[idx] = first
+		o.end[idx] = end
+	case <-time.After(hang):
+		o.released = "0"
+		o.end[idx] = "hang"
+	}
+	select {
+	case <-closed:
+		_ = it.Close()
+		o.idem = "1"
+	case <-time.After(hang):
+		o.idem = "0"
+	}
+	if o.released == "1" && o.idem == "1" {
+		_, err := it.ReadOne(ctx)
+		o.after = errKind(err)
+	}
 }
 
 // blocked: the source never ends, so after the input the consumer parks in ReadOne; another
@@ -568,10 +644,16 @@ func blocked(cfg *c01cfg, o *c01obs, it *fun.Iterator[int], ctx context.Context,
 }
 
 func c01workersOpt(cfg *c01cfg) fun.OptionProvider[*fun.WorkerGroupConf] {
+	opt := fun.WorkerGroupConfNumWorkers(cfg.workers)
 	if cfg.hasRaw {
-		return fun.WorkerGroupConfSet(&fun.WorkerGroupConf{NumWorkers: cfg.raw})
+		opt = fun.WorkerGroupConfSet(&fun.WorkerGroupConf{NumWorkers: cfg.raw})
 	}
-	return fun.WorkerGroupConfNumWorkers(cfg.workers)
+	if cfg.badopts {
+		// a configuration the library rejects (recovered panics cannot be excluded): every option is
+		// still applied and validated, Apply reports ers.ErrInvalidInput
+		opt = fun.JoinOptionProviders(opt, fun.WorkerGroupConfAddExcludeErrors(fun.ErrRecoveredPanic))
+	}
+	return opt
 }
 
 func c01run(cfg *c01cfg, o *c01obs, ctx context.Context, cancel context.CancelFunc) {
@@ -779,6 +861,13 @@ func split(cfg *c01cfg, o *c01obs, src *fun.Iterator[int], ctx context.Context, 
 			o.end[i] = "stop"
 		}
 		blocked(cfg, o, outs[0], ctx, cancel, &total)
+		return
+	}
+	if cfg.behaviour == "closeduringfirst" {
+		for i := 1; i < n; i++ {
+			o.end[i] = "stop"
+		}
+		closeDuringFirst(o, 0, outs[0], ctx)
 		return
 	}
 	wg := &sync.WaitGroup{}
